@@ -23,7 +23,7 @@ DIAGRAMS = ["pithist", "obsfcst", "timeseries", "meteo", "qq", "autocorr", "auto
 AXES = [None, "time", "leadtime", "year", "month", "week", "day", "timeofday", "dayofyear", "monthofyear",
         "dayofmonth", "location", "elev", "lat", "lon", "threshold", "leadtimeday", "no", "obs", "fcst"]
 TYPES = ["plot", "text", "csv", "map", "rank", "maprank", "impact", "mapimpact"]
-VARIANTS = ["none", "r1", "r3", "q2", "r1q1", "b_within", "agg_median", "b_below_eq", "r1_within", "q1", "agg_min", "agg_range", "agg_iqr", "agg_q", "agg_count"]
+VARIANTS = ["none", "r1", "r3", "q2", "r1q1", "b_within", "agg_median", "b_below_eq", "r1_within", "q1", "agg_min", "agg_range", "agg_iqr", "agg_q", "agg_count", "sub_tod", "sub_d", "sub_o"]
 SHAPES = ["prob2", "single", "allmiss", "det1", "nc2c"]
 
 
@@ -120,6 +120,10 @@ def all_combos(metrics, tier):
             for v in VARIANTS[3:]:
                 combos.append((m, None, "plot", v, "prob2"))
                 combos.append((m, "no", "text", v, "prob2"))
+            # subsetting options combined with derived time axes
+            for v in ("sub_tod", "sub_d", "sub_o"):
+                for ax in ("month", "week", "timeofday", "day", "year", "leadtimeday"):
+                    combos.append((m, ax, "csv", v, "prob2"))
             # slices without any valid case, under every kind of aggregator
             for v in ("agg_min", "agg_range", "agg_iqr", "agg_q", "agg_count", "agg_median"):
                 for ax in ("location", "leadtime"):
@@ -133,13 +137,27 @@ def plan(tier, seed):
     return [{"tier": tier, "seed": seed, "shard": i, "nshards": n} for i in range(n)]
 
 
+def subset_args(paths, v):
+    """-tod / -d / -o values that keep a strict, non-empty subset of the first file's times / lead times"""
+    import verif.input
+    import verif.util
+    f = [p for p in paths if not p.startswith("-")][0]
+    inp = verif.input.get_input(f)
+    t = sorted(float(x) for x in inp.times)
+    if v == "sub_tod":
+        return ["-tod", "%d" % ((int(t[0]) % 86400) // 3600)]
+    if v == "sub_d":
+        return ["-d", "%d" % verif.util.unixtime_to_date(int(t[-1]))]
+    return ["-o", "%g" % sorted(float(x) for x in inp.leadtimes)[0]]
+
+
 def build_argv(paths, m, ax, ty, v):
     argv = list(paths) + ["-m", m]
     if ax is not None:
         argv += ["-x", ax]
     if ty != "plot":
         argv += ["-type", ty]
-    argv += variant_args(v)
+    argv += subset_args(paths, v) if v.startswith("sub_") else variant_args(v)
     return argv
 
 
